@@ -27,6 +27,7 @@ def main (args : List String) : IO UInt32 := do
       | "data" :: r => cur := { cur with data := Driver.floats r }
       | "extra" :: r => cur := { cur with extra := Driver.floats r }
       | "parts" :: r => cur := { cur with parts := Driver.floats r }
+      | "ops" :: r => cur := { cur with words := r.toArray }
       | "aux" :: r => cur := { cur with aux := Driver.floats r }
       | "aux2" :: r => cur := { cur with aux2 := Driver.floats r }
       | ["run"] =>
